@@ -109,6 +109,67 @@ theorem frame__merge_cell_pair (p : Pattern) (hp : p.targetsFresh = true) (h : H
     · exact Preserves.refl (Nat.le_refl _)
   · exact Preserves.refl (Nat.le_refl _)
 
+/-! ### 1b. the cell-level helpers (Model/Heap.lean, "cells on the heap") -/
+
+/-- `Cell._base_replace` / `Cell.replace(values=d)`: a new cell object; nothing is written -/
+theorem frame_Cell_replace (p : Pattern) (hp : p.targetsFresh = true) (h : Heap) (c : Loc) (values : Ref) :
+    Preserves h.size h (cellReplace p h c values).1 := cellReplace_frame hp (Nat.le_refl _) c values
+
+/-- `Cell.select(keys)` -/
+theorem frame_Cell_select (p : Pattern) (hp : p.targetsFresh = true) (h : Heap) (c : Loc) (keys : List String) :
+    Preserves h.size h (cellSelect p h c keys).1 := cellSelect_frame hp (Nat.le_refl _) c keys
+
+/-- `Cell.derive_fields(**definitions)`: every step builds a new dict and a new cell -/
+theorem frame_Cell_derive_fields (p : Pattern) (hp : p.targetsFresh = true) (h : Heap) (c : Loc)
+    (defs : List (String × Ref)) : Preserves h.size h (cellDeriveFields p h c defs).1 :=
+  cellDeriveFields_frame hp defs c (Nat.le_refl _)
+
+/-- `Cell.derive_metadata(**definitions)`, any mix and order of top-level attributes and detail keys -/
+theorem frame_Cell_derive_metadata (p : Pattern) (hp : p.targetsFresh = true) (h : Heap) (c : Loc)
+    (defs : List (String × Bool × Ref)) : Preserves h.size h (cellDeriveMetadata p h c c defs).1 :=
+  cellDeriveMetadata_frame hp defs c c (Nat.le_refl _)
+
+/-- `Cell.add_statics(source_cell, fields)` -/
+theorem frame_Cell_add_statics (p : Pattern) (hp : p.targetsFresh = true) (h : Heap) (c src : Loc)
+    (fields : List String) : Preserves h.size h (cellAddStatics p h c src fields).1 :=
+  cellAddStatics_frame hp (Nat.le_refl _) c src fields
+
+/-- `_overwrite_values(cell1, cell2, suffix)` -/
+theorem frame__overwrite_values (p : Pattern) (hp : p.targetsFresh = true) (h : Heap) (c1 c2 : Loc)
+    (suffix : Option String) : Preserves h.size h (overwriteValues p h c1 c2 suffix).1 :=
+  overwriteValues_frame hp (Nat.le_refl _) c1 c2 suffix
+
+/-- `_thin_cell(cell, ndxs)`: fancy indexing allocates -/
+theorem frame__thin_cell (p : Pattern) (hp : p.targetsFresh = true) (h : Heap) (c : Loc) (ndxs : List Nat) :
+    Preserves h.size h (thinCell p h c ndxs).1 := thinCell_frame hp (Nat.le_refl _) c ndxs
+
+/-- `_convert_cell_currency(cell, rate, target)`: `v * rate` allocates -/
+theorem frame__convert_cell_currency (p : Pattern) (hp : p.targetsFresh = true) (h : Heap) (c : Loc)
+    (fields : List String) (rate : Rat) (currency : Ref) :
+    Preserves h.size h (convertCellCurrency p h c fields rate currency).1 :=
+  convertCellCurrency_frame hp (Nat.le_refl _) c fields rate currency
+
+/-- `summarize_cell_values` (sum-type rules): one `_conforming_sum` per key over aliases of the
+cells' values, results collected in a new dict -/
+theorem frame_summarize_cell_values (p : Pattern) (hp : p.targetsFresh = true) (h : Heap) (cells : List Loc)
+    (keys : List String) : Preserves h.size h (summarizeCellValues p h cells keys).1 :=
+  summarizeCellValues_frame hp (Nat.le_refl _) cells keys
+
+/-- the `vals_dict[field] += val * py_share` loop of `_accident_quarter_to_policy_year_slice`:
+invariant "the dict and every array in it were allocated after entry" -/
+theorem frame__accident_quarter_accumulate (p : Pattern) (hp : p.targetsFresh = true) (h : Heap)
+    (cells : List (Loc × Rat)) : Preserves h.size h (aqpyAccumulate p h cells).1 :=
+  aqpyAccumulate_frame hp h cells
+
+/-- `blend_cells(cells, weights, "linear", seed)`: stores go into the fresh `clean_values` -/
+theorem frame_blend_cells (pb pr : Pattern) (hpb : pb.targetsFresh = true) (hpr : pr.targetsFresh = true)
+    (h : Heap) (cells : List Loc) (weights : List Rat) :
+    Preserves h.size h (blendCells pb pr h cells weights).1 := blendCells_frame hpb hpr h cells weights
+
+/-- `_weight_cell_values`: per sub-period a new dict of new values (no pattern: nothing but allocation) -/
+theorem frame__weight_cell_values (h : Heap) (ev : List (String × Ref)) (ws : List Rat) :
+    Preserves h.size h (weightCellValues h ev ws).1 := weightCellValues_frame ev ws (Nat.le_refl _)
+
 /-! ### 2. today's source has fresh targets everywhere (tables regenerated each run) -/
 
 theorem pattern__conforming_sum_fresh :
@@ -123,6 +184,44 @@ theorem pattern__merge_cell_pair_fresh : Generated.Accum.pattern__merge_cell_pai
 initialised by a literal, a fresh container, a copy or a computed value -/
 theorem all_patterns_fresh :
     Generated.Accum.ok = true ∧ Generated.Accum.all.all Pattern.targetsFresh = true := by decide
+
+theorem cell_patterns_fresh :
+    Generated.Accum.pattern_Cell__base_replace.targetsFresh = true ∧
+    Generated.Accum.pattern_Cell_replace.targetsFresh = true ∧
+    Generated.Accum.pattern_Cell_select.targetsFresh = true ∧
+    Generated.Accum.pattern_Cell_derive_fields.targetsFresh = true ∧
+    Generated.Accum.pattern_Cell_derive_metadata.targetsFresh = true ∧
+    Generated.Accum.pattern_Cell_add_statics.targetsFresh = true ∧
+    Generated.Accum.pattern__overwrite_values.targetsFresh = true ∧
+    Generated.Accum.pattern__thin_cell.targetsFresh = true ∧
+    Generated.Accum.pattern__convert_cell_currency.targetsFresh = true ∧
+    Generated.Accum.pattern_summarize_cell_values.targetsFresh = true ∧
+    Generated.Accum.pattern__accident_quarter_to_policy_year_slice.targetsFresh = true ∧
+    Generated.Accum.pattern_blend_cells.targetsFresh = true ∧
+    Generated.Accum.pattern__linear_blend.targetsFresh = true ∧
+    Generated.Accum.pattern__mixture_blend.targetsFresh = true ∧
+    Generated.Accum.pattern__weight_cell_values.targetsFresh = true := by decide
+
+/-- the frame of the cell-level helpers as the source stands -/
+theorem cell_helpers_respect_frame (h : Heap) :
+    (∀ c v, Preserves h.size h (cellReplace Generated.Accum.pattern_Cell__base_replace h c v).1) ∧
+    (∀ c ks, Preserves h.size h (cellSelect Generated.Accum.pattern_Cell_select h c ks).1) ∧
+    (∀ c ds, Preserves h.size h (cellDeriveFields Generated.Accum.pattern_Cell_derive_fields h c ds).1) ∧
+    (∀ c ds, Preserves h.size h (cellDeriveMetadata Generated.Accum.pattern_Cell_derive_metadata h c c ds).1) ∧
+    (∀ c s fs, Preserves h.size h (cellAddStatics Generated.Accum.pattern_Cell_add_statics h c s fs).1) ∧
+    (∀ a b sf, Preserves h.size h (overwriteValues Generated.Accum.pattern__overwrite_values h a b sf).1) ∧
+    (∀ c ix, Preserves h.size h (thinCell Generated.Accum.pattern__thin_cell h c ix).1) ∧
+    (∀ c fs r cu, Preserves h.size h (convertCellCurrency Generated.Accum.pattern__convert_cell_currency h c fs r cu).1) ∧
+    (∀ cs ks, Preserves h.size h (summarizeCellValues Generated.Accum.pattern__conforming_sum h cs ks).1) ∧
+    (∀ cs, Preserves h.size h (aqpyAccumulate Generated.Accum.pattern__accident_quarter_to_policy_year_slice h cs).1) ∧
+    (∀ cs ws, Preserves h.size h
+      (blendCells Generated.Accum.pattern_blend_cells Generated.Accum.pattern_Cell__base_replace h cs ws).1) := by
+  obtain ⟨b1, _, b3, b4, b5, b6, b7, b8, b9, _, b11, b12, _, _, _⟩ := cell_patterns_fresh
+  exact ⟨frame_Cell_replace _ b1 h, frame_Cell_select _ b3 h, frame_Cell_derive_fields _ b4 h,
+    frame_Cell_derive_metadata _ b5 h, frame_Cell_add_statics _ b6 h, frame__overwrite_values _ b7 h,
+    frame__thin_cell _ b8 h, frame__convert_cell_currency _ b9 h,
+    frame_summarize_cell_values _ pattern__conforming_sum_fresh h,
+    frame__accident_quarter_accumulate _ b11 h, frame_blend_cells _ _ b12 b1 h⟩
 
 /-- the frame of the five helpers as the source stands -/
 theorem helpers_respect_frame (h : Heap) :
@@ -207,13 +306,46 @@ example :
       ≠ witnessDicts.get 1 := by
   decide +kernel
 
+/-- the seeded change of `Cell.derive_metadata` (fast path `cell.metadata.details[name] = value` once
+`cell is not self`): after a top-level attribute definition the new metadata object still SHARES the
+details dict of the argument, so the store lands in the argument. Witness: cell 3 with values dict 0,
+metadata 2 whose details dict is 1; `derive_metadata(currency=…, region=…)`. -/
+def witnessCell : Heap :=
+  ⟨[.dict [], .dict [("coverage", .scalar 1)], .dict [("details", .loc 1), ("currency", .scalar 0)],
+    .dict [("values", .loc 0), ("metadata", .loc 2)]]⟩
+
+theorem derive_metadata_fast_path_violates_frame :
+    (cellDeriveMetadata ⟨"Cell.derive_metadata", [⟨"cell", "store", [.param]⟩]⟩ witnessCell 3 3
+        [("currency", true, .scalar 7), ("region", false, .scalar 9)]).1.get 1 ≠ witnessCell.get 1 := by
+  decide +kernel
+
+/-- with today's pattern the same call leaves the argument's details dict alone -/
+example :
+    (cellDeriveMetadata Generated.Accum.pattern_Cell_derive_metadata witnessCell 3 3
+        [("currency", true, .scalar 7), ("region", false, .scalar 9)]).1.get 1 = witnessCell.get 1 := by
+  decide +kernel
+
+/-- `v *= exchange_rate` on the loop variable multiplies the argument's array in place -/
+example :
+    (convertCellCurrency ⟨"_convert_cell_currency", [⟨"v", "aug", [.param]⟩]⟩
+        ⟨[.arr [2, 4], .dict [("paid_loss", .loc 0)], .dict [("values", .loc 1), ("metadata", .none)]]⟩
+        2 ["paid_loss"] ((1 : Rat) / 2) (.scalar 1)).1.get 0 = some (.arr [1, 2]) := by
+  decide +kernel
+
 -- OPEN frame_reachable_entry_points
---   the same frame statement for the remaining functions of the mechanism list
---   (`summarize_cell_values`, `blend_cells`, `_overwrite_values`, `Cell.replace/select/derive_fields/
---   add_statics`, `_thin_cell`, `_accident_quarter_to_policy_year_slice`, `long_data_frame_to_triangle`)
---   and for the ~80 public entry points: their bodies are not modelled on the heap. Their
---   accumulator patterns ARE regenerated and checked (`all_patterns_fresh`), and their behaviour is
---   covered by the fingerprint correspondence (every registered operation × shape × chain position,
---   plain and read-only runs).
+--   the same frame statement for the PUBLIC ENTRY POINTS (~80 operations of the harness registry) and
+--   for the anchor functions whose bodies are not modelled on the heap: `to_incremental`,
+--   `to_cumulative` (beyond `_values_diff`/`_values_add`), `coalesce`, `_aggregate_period`,
+--   `utils.add_statics`, `long_data_frame_to_triangle`, `monthly_ep_to_quarterly_ep`, `blend_samples`
+--   with the mixture method (numpy RNG), `Cell.replace` with callables.
+--   COVERED by frame theorems above (model + theorem + pattern freshness by `decide`):
+--   `_conforming_sum`, `_conforming_weighted_average`, `_values_add`, `_values_diff`, `_merge_cell_pair`,
+--   `Cell._base_replace`/`Cell.replace(values=…)`, `Cell.select`, `Cell.derive_fields`,
+--   `Cell.derive_metadata`, `Cell.add_statics`, `_overwrite_values`, `_thin_cell`,
+--   `_convert_cell_currency`, `summarize_cell_values` (sum rules), the `vals_dict[field] += …` loop of
+--   `_accident_quarter_to_policy_year_slice`, `blend_cells` (linear), `_weight_cell_values`.
+--   For everything else the accumulator patterns ARE regenerated and checked (`all_patterns_fresh`, 28
+--   functions) and the behaviour is covered by the fingerprint correspondence (every registered
+--   operation × shape × chain position, plain and read-only runs).
 
 end Bermuda.Properties.C03
